@@ -184,27 +184,30 @@ func (db *DB) Delete(key []byte) {
 }
 
 func (db *DB) Get(key []byte) (kv.Entry, error) {
-	sstables := db.currentSSTables()
-	verifhook.At("dkv.read.between", db)
-
 	// First try to get from the memtables
 	v, err := db.mtables.Get(key)
 	if err == nil {
 		return v, nil
 	}
+	verifhook.At("dkv.read.between", db)
 
-	// Then try the SSTables
+	// Then try the SSTables. They are snapshotted after the memtables were read:
+	// a flush that commits in between is then seen in the tables instead of being
+	// missed in both places.
 	if err == kv.ErrNotFound {
-		return sstables.Get(key)
+		return db.currentSSTables().Get(key)
 	}
 
 	return nil, err
 }
 
 func (db *DB) ScanPrefix(prefix []byte, errOut *error) iter.Seq[kv.Entry] {
-	sstables := db.currentSSTables()
+	// Snapshot the memtables before the sstables: a flush that commits in between
+	// is then seen in both places (same versions) instead of in neither.
+	memEntries := db.mtables.ScanPrefix(prefix, errOut)
 	verifhook.At("dkv.read.between", db)
-	iters := []iter.Seq[kv.Entry]{db.mtables.ScanPrefix(prefix, errOut), sstables.ScanPrefixWithTombstones(prefix, errOut)}
+	sstables := db.currentSSTables()
+	iters := []iter.Seq[kv.Entry]{memEntries, sstables.ScanPrefixWithTombstones(prefix, errOut)}
 
 	// Delete markers take part in the merge so that a newer delete hides an older
 	// put; they are dropped from the result.
